@@ -252,7 +252,7 @@ def textHeaderName (sel : String) : Option String :=
   | "content-location" => some "Content-Location"
   | _ => none
 
-def typedOp : List String → String
+def typedOp1 (rawCt : String) : List String → String
   | [kind, a, b, block, same] =>
     if block == "PANIC" then propfail "panic" else
     if block == "unparseable" then "ok" else
@@ -282,9 +282,20 @@ def typedOp : List String → String
               propfail "file-name-does-not-decode-to-the-name" else "ok"
           | none => "BADLINE"
         else if kind == "mimever" then (if v == str s!"{a}.{b}" then "ok" else mismatch "mimever" (str s!"{a}.{b}"))
+        else if kind == "ctype" then
+          -- `ContentType::display` is `HeaderValue::new(name, media type as given)`: the encoder model of C02
+          match (if rawCt == "-" then none else ofHex rawCt) with
+          | some raw =>
+            let m := str "Content-Type: " ++ HeaderEnc.encodeValue HeaderEnc.opts 12 raw ++ CRLF
+            if m == blk then "ok" else s!"MISMATCH content-type model={toHexField m}"
+          | none => "BADLINE"
         else "ok"
       | _ => propfail "header-section-does-not-parse-as-one-field"
   | l => if l.contains "PANIC" then propfail "panic" else "BADLINE"
+
+def typedOp : List String → String
+  | [kind, a, b, block, same, raw] => typedOp1 raw [kind, a, b, block, same]
+  | l => typedOp1 "-" l
 
 open LV.Builder in
 def parseOps (s : String) : Option (List Op) :=
